@@ -37,10 +37,19 @@ try:
     pat = m.group(1) if m else "."
     pkg = "./" + os.path.dirname(dest) if dest and os.path.dirname(dest) else "."
     def run_demo():
+        newdir = not os.path.isdir(os.path.dirname(os.path.join(WT, dest)))
+        os.makedirs(os.path.dirname(os.path.join(WT, dest)), exist_ok=True)
         shutil.copy(tests[0], os.path.join(WT, dest))
         rc, out = sh(f"go test -vet=off -count=1 -run '{pat}' {pkg}", cwd=WT, timeout=1500)
         os.remove(os.path.join(WT, dest))
+        if newdir:
+            shutil.rmtree(os.path.dirname(os.path.join(WT, dest)), ignore_errors=True)
         return rc, out
+    runsh = os.path.join(seed, "demo", "run.sh")
+    if os.path.exists(runsh):
+        def run_demo():
+            return sh(f"sh {runsh} {WT}", cwd=os.path.join(seed, "demo"), timeout=1500)
+        tests, dest = [runsh], "demo/run.sh"
     if tests and dest:
         rc0, out0 = run_demo()
         res["demo_passes_without_patch"] = rc0 == 0
@@ -53,7 +62,7 @@ try:
     if tests and dest:
         rc1, out1 = run_demo()
         res["demo_fails_with_patch"] = rc1 != 0
-        res["demo_cmd"] = f"cp {os.path.basename(tests[0])} {dest} && go test -vet=off -count=1 -run '{pat}' {pkg}"
+        res["demo_cmd"] = f"sh demo/run.sh <worktree>" if os.path.exists(runsh) else f"cp {os.path.basename(tests[0])} {dest} && go test -vet=off -count=1 -run '{pat}' {pkg}"
 finally:
     subprocess.run(f"git -C /repo worktree remove --force {WT}", shell=True, stdout=subprocess.DEVNULL, stderr=subprocess.DEVNULL)
 print("verified:", res)
@@ -72,6 +81,8 @@ shutil.copy(os.path.join(seed, "patch.diff"), d)
 for t in glob.glob(os.path.join(seed, "*")):
     if os.path.basename(t) not in ("patch.diff", "meta.json") and os.path.isfile(t):
         shutil.copy(t, d)
+if os.path.isdir(os.path.join(seed, "demo")):
+    shutil.copytree(os.path.join(seed, "demo"), os.path.join(d, "demo"), dirs_exist_ok=True)
 meta.update({"property": prop, "verified": res, "check": {"cmd": f"./check {prop} --tier {tier}", "detected": detected, "report": lines[:3]}})
 json.dump(meta, open(os.path.join(d, "meta.json"), "w"), indent=1)
 print("KEPT", d, "detected" if detected else "MISSED")
